@@ -114,6 +114,22 @@ class _Log(CallbackListener):
         self.w = world
         super().__init__()
 
+    # C19 "announced BEFORE it takes effect": what the listener can see at the moment it is told
+    def _pre_add(self, rel, p, c):
+        if any(x is c for x in getattr(p, REL[rel][0])):
+            self.w.early.append('add %s announced after the child was already listed' % rel)
+
+    def _pre_remove(self, rel, p, c):
+        if not any(x is c for x in getattr(p, REL[rel][0])):
+            self.w.early.append('remove %s announced after the child had already left the list' % rel)
+
+    def _pre_connect(self, w, p):
+        stored = p
+        if isinstance(p, _OuterPin) and p.instance is not None and p.inner_pin in p.instance._pins:
+            stored = p.instance._pins[p.inner_pin]
+        if any(x is stored for x in w._pins) or getattr(stored, '_wire', None) is w:
+            self.w.early.append('connect announced after the pin was already on the wire')
+
     def _i(self, o):
         return self.w.tok_id(o)
 
@@ -123,17 +139,17 @@ class _Log(CallbackListener):
     def create_port(self, x): self.w.events.append('create:port:' + self._i(x))
     def create_cable(self, x): self.w.events.append('create:cable:' + self._i(x))
     def create_instance(self, x): self.w.events.append('create:instance:' + self._i(x))
-    def cable_add_wire(self, p, c): self.w.events.append('add:wires:%s:%s' % (self._i(p), self._i(c)))
-    def cable_remove_wire(self, p, c): self.w.events.append('remove:wires:%s:%s' % (self._i(p), self._i(c)))
-    def definition_add_port(self, p, c): self.w.events.append('add:ports:%s:%s' % (self._i(p), self._i(c)))
-    def definition_remove_port(self, p, c): self.w.events.append('remove:ports:%s:%s' % (self._i(p), self._i(c)))
-    def definition_add_child(self, p, c): self.w.events.append('add:children:%s:%s' % (self._i(p), self._i(c)))
-    def definition_remove_child(self, p, c): self.w.events.append('remove:children:%s:%s' % (self._i(p), self._i(c)))
-    def definition_add_cable(self, p, c): self.w.events.append('add:cables:%s:%s' % (self._i(p), self._i(c)))
-    def definition_remove_cable(self, p, c): self.w.events.append('remove:cables:%s:%s' % (self._i(p), self._i(c)))
+    def cable_add_wire(self, p, c): self._pre_add('wires', p, c); self.w.events.append('add:wires:%s:%s' % (self._i(p), self._i(c)))
+    def cable_remove_wire(self, p, c): self._pre_remove('wires', p, c); self.w.events.append('remove:wires:%s:%s' % (self._i(p), self._i(c)))
+    def definition_add_port(self, p, c): self._pre_add('ports', p, c); self.w.events.append('add:ports:%s:%s' % (self._i(p), self._i(c)))
+    def definition_remove_port(self, p, c): self._pre_remove('ports', p, c); self.w.events.append('remove:ports:%s:%s' % (self._i(p), self._i(c)))
+    def definition_add_child(self, p, c): self._pre_add('children', p, c); self.w.events.append('add:children:%s:%s' % (self._i(p), self._i(c)))
+    def definition_remove_child(self, p, c): self._pre_remove('children', p, c); self.w.events.append('remove:children:%s:%s' % (self._i(p), self._i(c)))
+    def definition_add_cable(self, p, c): self._pre_add('cables', p, c); self.w.events.append('add:cables:%s:%s' % (self._i(p), self._i(c)))
+    def definition_remove_cable(self, p, c): self._pre_remove('cables', p, c); self.w.events.append('remove:cables:%s:%s' % (self._i(p), self._i(c)))
     def instance_reference(self, n, d): self.w.events.append('reference:%s:%s' % (self._i(n), self._i(d)))
-    def library_add_definition(self, p, c): self.w.events.append('add:defs:%s:%s' % (self._i(p), self._i(c)))
-    def library_remove_definition(self, p, c): self.w.events.append('remove:defs:%s:%s' % (self._i(p), self._i(c)))
+    def library_add_definition(self, p, c): self._pre_add('defs', p, c); self.w.events.append('add:defs:%s:%s' % (self._i(p), self._i(c)))
+    def library_remove_definition(self, p, c): self._pre_remove('defs', p, c); self.w.events.append('remove:defs:%s:%s' % (self._i(p), self._i(c)))
 
     def netlist_top_instance(self, n, a):
         if a is None:
@@ -144,11 +160,11 @@ class _Log(CallbackListener):
             t = 'I' + self._i(a)
         self.w.events.append('top:%s:%s' % (self._i(n), t))
 
-    def netlist_add_library(self, p, c): self.w.events.append('add:libs:%s:%s' % (self._i(p), self._i(c)))
-    def netlist_remove_library(self, p, c): self.w.events.append('remove:libs:%s:%s' % (self._i(p), self._i(c)))
-    def port_add_pin(self, p, c): self.w.events.append('add:pins:%s:%s' % (self._i(p), self._i(c)))
-    def port_remove_pin(self, p, c): self.w.events.append('remove:pins:%s:%s' % (self._i(p), self._i(c)))
-    def wire_connect_pin(self, w, p): self.w.events.append('connect:%s:%s' % (self._i(w), self.w.tok_pin(p)))
+    def netlist_add_library(self, p, c): self._pre_add('libs', p, c); self.w.events.append('add:libs:%s:%s' % (self._i(p), self._i(c)))
+    def netlist_remove_library(self, p, c): self._pre_remove('libs', p, c); self.w.events.append('remove:libs:%s:%s' % (self._i(p), self._i(c)))
+    def port_add_pin(self, p, c): self._pre_add('pins', p, c); self.w.events.append('add:pins:%s:%s' % (self._i(p), self._i(c)))
+    def port_remove_pin(self, p, c): self._pre_remove('pins', p, c); self.w.events.append('remove:pins:%s:%s' % (self._i(p), self._i(c)))
+    def wire_connect_pin(self, w, p): self._pre_connect(w, p); self.w.events.append('connect:%s:%s' % (self._i(w), self.w.tok_pin(p)))
     def wire_disconnect_pin(self, w, p): self.w.events.append('disconnect:%s:%s' % (self._i(w), self.w.tok_pin(p)))
     def dictionary_set(self, e, k, v): self.w.events.append('dset:%s:%s:%s' % (self._i(e), tok_of_s(k), tok_of_val(v)))
     def dictionary_delete(self, e, k): self.w.events.append('ddel:%s:%s' % (self._i(e), tok_of_s(k)))
@@ -161,6 +177,7 @@ class World:
         self.objs = []
         self.index = {}
         self.events = []
+        self.early = []       # C19: announcements that came after the effect
         self.raw_events = []  # (name, args) for the shadow listener of C19
         sdn.namespace_manager.default = 'DEFAULT'
         import spydrnet.uniquify as _u, spydrnet.flatten as _f
@@ -220,6 +237,7 @@ class World:
     # ---- op execution ----
     def apply(self, toks):
         self.events = []
+        self.early = []
         try:
             self._do(toks)
             return 'ok'
